@@ -526,3 +526,30 @@ Fixpoint deliveries (rops : list rop) : list op :=
   | Deliver o :: r => o :: deliveries r
   | Restart :: r => deliveries r
   end.
+
+(** * The tracker's window of remembered headers (ChainTracker::headers): on a connection
+    the deque is truncated to MAX_REORG_SIZE - 1 and the old tip pushed in front, so it holds
+    up to MAX_REORG_SIZE headers; a disconnection needs one remembered header
+    (Error::ReorgTooDeep otherwise, unless allow_deep_reorgs) and pops it; a restart keeps
+    the deque.  [w_len] and [w_peak] are ghosts: blocks connected since the tracker was
+    created, and the highest such count ever reached. *)
+Definition MAX_REORG_SIZE : N := 100.
+Inductive wop := WAdd | WRemove | WRestart.
+Record wst := mkw { w_rem : N; w_len : N; w_peak : N }.
+Definition winit : wst := mkw 0 0 0.
+(** the next state and whether the tracker accepted *)
+Definition wnext (s : wst) (o : wop) : wst * bool :=
+  match o with
+  | WAdd => (mkw (N.min MAX_REORG_SIZE (w_rem s + 1)) (w_len s + 1) (N.max (w_peak s) (w_len s + 1)), true)
+  | WRemove => if w_rem s =? 0 then (s, false) else (mkw (w_rem s - 1) (w_len s - 1) (w_peak s), true)
+  | WRestart => (s, true)
+  end.
+(** the remembered-header count after every delivery; [None] = refused *)
+Fixpoint win_trace (s : wst) (ops : list wop) : list (option N) :=
+  match ops with
+  | [] => []
+  | o :: r => let '(s', ok) := wnext s o in
+              (if ok then Some (w_rem s') else None) :: win_trace s' r
+  end.
+Fixpoint wrun (s : wst) (ops : list wop) : wst :=
+  match ops with [] => s | o :: r => wrun (fst (wnext s o)) r end.
